@@ -97,6 +97,7 @@ PROPS = {
     },
     'C19': {
         'design_ref': 'DESIGN.md section 6.4',
+        'spec_conformance_c19': True,
         'verus_units': [
             {'template': 'units/c19_lsp.rs.in', 'modes': [[]], 'canary': True},
             {'template': 'units/c19_syntax.rs.in', 'modes': [[]], 'canary': True},
